@@ -459,7 +459,11 @@ func (w *World) runFrame(fr *frame) {
 		}
 		if _, ok := p.(targetPanic); !ok {
 			// interpreter bug or host runtime error: report as engine error with location
-			panic(engineError{fmt.Sprintf("internal: %v in %s block %d", p, fr.fn, fr.block.Index) + "\n" + string(stack())})
+			chain := ""
+			for c, n := fr.caller, 0; c != nil && n < 12; c, n = c.caller, n+1 {
+				chain += " <- " + c.fn.String()
+			}
+			panic(engineError{fmt.Sprintf("internal: %v in %s block %d%s", p, fr.fn, fr.block.Index, chain) + "\n" + string(stack())})
 		}
 		fr.panicking = true
 		fr.panic = p
